@@ -78,12 +78,12 @@ where
     });
     let rp = json!({"kind":"triple-pair","from":an,"to":bn,"status":s,"d1":d1,"d2":d2});
     match r {
-        None => rep.violation(
+        None => crate::viol!(rep, 
             format!("C03:panic:{}->{}:{}", an, bn, type_name(s)),
             format!("conversion {}->{} of ({},{},{}) panicked", an, bn, s, d1, d2),
             rp,
         ),
-        Some(None) => rep.violation(
+        Some(None) => crate::viol!(rep, 
             format!("C03:from_bytes-rejected:{}", an),
             format!("{}::from_bytes(({},{},{})) failed", an, s, d1, d2),
             rp,
@@ -91,21 +91,21 @@ where
         Some(Some((fa, fb1, fb2, fst))) => {
             let canonical = a_struct || b_struct;
             if let Some(d) = same(&fa, &fb1, canonical) {
-                rep.violation(
+                crate::viol!(rep, 
                     format!("C03:to_other:{}->{}:{}", an, bn, type_name(s)),
                     format!("({:#04x},{},{}) {}.to_other::<{}>(): {}", s, d1, d2, an, bn, d),
                     rp.clone(),
                 );
             }
             if let Some(d) = same(&fa, &fb2, canonical) {
-                rep.violation(
+                crate::viol!(rep, 
                     format!("C03:from_other:{}->{}:{}", an, bn, type_name(s)),
                     format!("({:#04x},{},{}) {}::from_other(&{}): {}", s, d1, d2, bn, an, d),
                     rp.clone(),
                 );
             }
             if let Some(d) = same(&fa, &fst, true) {
-                rep.violation(
+                crate::viol!(rep, 
                     format!("C03:to_structured:{}:{}", an, type_name(s)),
                     format!("({:#04x},{},{}) {}.to_structured(): {}", s, d1, d2, an, d),
                     rp,
@@ -128,19 +128,19 @@ where
     });
     let rp = json!({"kind":"triple","carrier":an,"status":s,"d1":d1,"d2":d2});
     match r {
-        None => rep.violation(
+        None => crate::viol!(rep, 
             format!("C03:panic:{}:{}", an, type_name(s)),
             format!("trait methods on {} ({},{},{}) panicked", an, s, d1, d2),
             rp,
         ),
-        Some(None) => rep.violation(
+        Some(None) => crate::viol!(rep, 
             format!("C03:from_bytes-rejected:{}", an),
             format!("from_bytes(({},{},{})) failed", s, d1, d2),
             rp,
         ),
         Some(Some((fr, fa))) => {
             if let Some(d) = same(&fr, &fa, a_struct) {
-                rep.violation(
+                crate::viol!(rep, 
                     format!("C03:carrier-vs-raw:{}:{}", an, type_name(s)),
                     format!("({:#04x},{},{}) {} vs Raw: {}", s, d1, d2, an, d),
                     rp,
@@ -152,7 +152,7 @@ where
 
 pub fn run(cfg: &Cfg, rep: &mut Report) {
     rep.rule("all 2^21 valid triples: accessor/byte vectors of Raw, Structured, Foreign (getters only) and ForeignBytes (overrides to_bytes) compared pairwise, and across to_other/from_other/to_structured for all 16 ordered carrier pairs; only tolerated difference: Structured reports information-free data bytes as zero; non-trivial = triple with a non-zero data byte");
-    let stride: usize = if cfg.as_c18 && !cfg.thorough { 7 } else { 1 };
+    let stride: usize = if cfg.as_c18 && !cfg.thorough { 7 } else if cfg.secondary && !cfg.thorough { 3 } else { 1 };
     par(cfg, rep, |shard, n, rep| {
         let mut evals = 0u64;
         let mut nontrivial = 0u64;
